@@ -35,7 +35,7 @@ RULE = ('cases = (view, source size 0-3 rows (+ragged), schedule word over s_i/n
 ASSUMPTIONS = ['single-threaded cooperative schedules (petl has no threads)', 'twin views built from equal sources are deterministic (checked per view)']
 CACHING = ['sort', 'sort-key', 'sort-file-cache', 'sort-reverse-file', 'hashjoin', 'hashleftjoin', 'hashrightjoin', 'cache', 'cache-n2',
            'x:fromdicts-generator', 'x:fromdicts-generator-sample2', 'x:fromdicts-generator-shared-cells', 'join', 'distinct', 'aggregate-buffered']
-REQUIRED = ['another-view-built-and-read-between-steps', 'failed-pass:source-failed-midway', 'clearcache-under-live-iterators', 'method-form-views', 'views-judged', 'schedules-run', 'fresh-passes-compared'] + ['midfill:' + v for v in CACHING]
+REQUIRED = ['another-view-built-and-read-between-steps', 'views-whose-reference-is-their-own-first-pass', 'failed-pass:source-failed-midway', 'clearcache-under-live-iterators', 'method-form-views', 'views-judged', 'schedules-run', 'fresh-passes-compared'] + ['midfill:' + v for v in CACHING]
 EXHAUSTIVE = {'quick': False, 'thorough': False}
 
 _files = {}
@@ -141,6 +141,8 @@ EXTRA = {
     'x:fromcolumns': lambda s: petl.fromcolumns([[1, 2, 3], ['a', 'b']]),
     'x:randomtable': lambda s: petl.randomtable(2, len(s) - 1, seed=3),
     'x:dummytable': lambda s: petl.dummytable(len(s) - 1, seed=3),
+    # without a seed every view draws its own: the rows differ from view to view, not from pass to pass
+    'x:randomtable-noseed': lambda s: petl.randomtable(2, len(s) - 1),
     'x:empty': lambda s: petl.empty(),
     'x:cache-n1': lambda s: _cache(s, n=1),
     'x:cache-of-sort': lambda s: _cache(petl.sort(s, 'f0', buffersize=2)),
@@ -217,7 +219,7 @@ def cases(ctx):
         e = C.ENTRIES.get(name)
         if e is not None and not e.ragged:
             sizes = sizes[:-1]
-        if name in EXTRA and not name.startswith(('x:cache', 'x:sort', 'x:biselect', 'x:unjoin', 'x:diff', 'x:hashjoin', 'x:fromdicts', 'x:randomtable', 'x:dummytable')):
+        if name in EXTRA and not name.startswith(('x:cache', 'x:sort', 'x:biselect', 'x:unjoin', 'x:diff', 'x:hashjoin', 'x:fromdicts', 'x:randomtable', 'x:dummytable', 'x:randomtable-noseed')):
             sizes = [(3, False)]
         for n, ragged in sizes:
             L = n + 1           # nominal length (header + n rows); real length may differ, schedules are padded
@@ -342,7 +344,27 @@ def _solo(name, n, ragged):
     return _solo_cache[key]
 
 
+SELF_SOLO = {'x:randomtable-noseed'}        # views whose reference sequence is their own first pass (no two of them are alike)
+
+
 def judge(case, ctx):
+    name, n, ragged = case['view'], case['n'], case['ragged']
+    if name in SELF_SOLO:
+        view0 = _build(name, n, ragged)
+        solo0 = [_norm(r) for r in iter(view0)]
+        ctx.seen('views-whose-reference-is-their-own-first-pass')
+        saved = (_build, _solo)
+        g = globals()
+        g['_build'] = lambda nm, n_, rg, wrap=None: view0 if nm == name else saved[0](nm, n_, rg, wrap)
+        g['_solo'] = lambda nm, n_, rg: solo0 if nm == name else saved[1](nm, n_, rg)
+        try:
+            return _judge(case, ctx)
+        finally:
+            g['_build'], g['_solo'] = saved
+    return _judge(case, ctx)
+
+
+def _judge(case, ctx):
     name, n, ragged = case['view'], case['n'], case['ragged']
     solo = _solo(name, n, ragged)
     if solo is None:
